@@ -528,7 +528,10 @@ def run(chk: Check) -> int:
         m = metas[c]
         chk.broke("correspondence", f"Model/L1D.v vs Learner1D on a permuted/batched delivery: case {m['origin']} step {s}",
                   {"cfg": m["cfg"], "ops": m["ops"][:s + 1]})
-    chk.extra.update({"feature_counts": stats, "cases_compared_in_coq": len(cases), "mismatches": len(mism),
+    sigs = {}
+    for f in chk.failures:
+        sigs[f["signature"]] = sigs.get(f["signature"], 0) + 1
+    chk.extra.update({"feature_counts": stats, "cases_compared_in_coq": len(cases), "mismatches": len(mism), "failure_signatures": sigs,
                       "exhaustive": False,
                       "partial": ["C11_l1d_partial: loss tables (los, losc), loss() and ask() of Learner1D are not covered by a "
                                   "theorem; they are decided by the oracle on the real class and the bit-exact correspondence"]})
